@@ -22,6 +22,28 @@ CHECKS = {
  "C19": ("4/C19", "", "--budget 30m",
          "Bounded model checking of range/between/until/groupBy/len: init and step lemmas of the counter iterator over all 2^64 values of every argument (so the int extremes are single solver models), bounded sequences, and the groupBy partition laws for every group count n (64 bit symbolic) and every slice length within the bound with symbolic elements, for both shipped implementations.",
          "Bounds quick: slice length <= 12; sequences of <= 4 elements from an arbitrary start; thorough: slice length <= 40. Outside: arrays passed by value to groupBy (a C04 matter), the through-template form (covered by C08 harnesses), element types other than int/string/struct/pointer."),
+
+ "C02": ("4/C02", "", "--budget 30m",
+         "Bounded model checking of lexer+parser+evaluator against a reference scanner written from the statement: literal text is copied byte for byte except for the escapes \\<% and \\\\<%, output tags contribute their (escaped) value, code and comment tags nothing; double-quoted and back-quoted string literals denote the characters between their quotes.",
+         "Bounds quick: every NUL-free byte string of length <= 5 as text (tag openers formed by text bytes excluded by assumption, stated in the harness); s0 TAG s1 [TAG z] with |s_i| <= 2 and TAG from a catalogue of 11 output/code/comment tags; string-literal contents <= 3 arbitrary bytes in 3 uses; the same inside if/for/fn/block-helper bodies with |s_i| <= 1. Thorough: 7 / 3 / 5 / 2 bytes. Outside: NUL, unterminated strings, longer texts."),
+ "C04": ("4/C04", "", "--budget 30m",
+         "Bounded model checking of the evaluator's totality: for every cell of the kind matrices no feasible path panics (every reflect precondition is an explicit check of the reflect model; Go run-time checks are explicit in the executor) and Render returns output or (\"\", error). Every panic candidate is replayed natively.",
+         "Matrices over a pool of 27 value kinds (ints with arbitrary 64-bit payload so negative/huge indexes are single models, strings with arbitrary bytes, typed nils, slices, arrays, maps of three key types, structs, pointers, functions of three signatures, iterator, template.HTML): 13 binary operators + ! + unary minus x L x R; container x index x {read, member-after-index, double index}; container x index x assigned value; receiver x 20 member/method expressions; iterable kinds; callee x 9 call shapes; 21 built-in helper calls x argument kinds; user functions x 14 call shapes. Outside: helpers backed by unmodelled libraries (pathFor, inflections, toJSON, env, debug), symbolic floats, random programs, regexp on symbolic strings."),
+ "C05": ("4/C05", "", "--budget 30m",
+         "Bounded model checking of error propagation: a recording helper that fails iff a symbolic flag is set is placed at 54 positions (operand of every operator, conditions, branch bodies, loop iterable/body, array/hash element, index, helper and user-function arguments, block-helper block, contentFor/contentOf, partial, let, assignment, silent tags); whenever it ran and failed, Render must return a non-nil error that errors.Is the sentinel, with empty output; guarded positions decide reachability symbolically.",
+         "Bounds: one failing call per template (plus a two-call harness), fixed surrounding templates. The tolerated fault (unknown identifier as condition / operand of ! == != && ||) is the negative control; a bare unknown identifier nested inside such an operand (id(nope), xs[nope]) is a grey area of the statement and is not decided."),
+ "C06": ("4/C06", "", "--budget 30m",
+         "Bounded model checking of operators against a reference: (1) one node a OP b with a, b arbitrary 64-bit ints / int64s / strings / bools / floats from a pool: rendered value equals Go's own operation on the same terms, division by zero and type mismatch are errors; (2) tree shape: every sequence of k operators with optional ! prefixes and one parenthesis pair, printed tree equals a reference precedence climber; (3) short-circuit with a recording helper and end-to-end a OP1 b OP2 c with three arbitrary ints against a typed reference evaluator.",
+         "Bounds quick: k = 2 operators (13^2 sequences x prefixes x paren placements); strings of <= 1 byte; thorough: k = 3, strings <= 2 bytes. Floats from a concrete pool of 6; ~= only on concrete strings; mixed bool/int comparisons are not decided (the statement does not fix them)."),
+ "C07": ("4/C07", "", "--budget 30m",
+         "Bounded model checking of truthiness and chains: 22 value kinds with arbitrary payloads tested in 8 syntactic contexts against the statement's truth table; chains of n recording conditions with every truth assignment (symbolic booleans) at top level, in a for body, in a function, in a helper block: output is the block of the first truthy condition and the recorded evaluations are exactly 0..first.",
+         "Bounds quick: chains of <= 2 conditions; thorough <= 4."),
+ "C08": ("4/C08", "", "--budget 30m",
+         "Bounded model checking of for loops against an unrolled reference: 14 body shapes (emit, key+value, break/continue as first/middle/last statement, inside if/else, statement after the control block, code-form bodies with return) over slices with arbitrary int elements and an arbitrary threshold; 14 iterable kinds; maps under every iteration order; control statements before/after/inside nested loops.",
+         "Bounds quick: slice length <= 2; thorough <= 4. Maps of <= 2 entries."),
+ "C16": ("4/C16", "", "--budget 30m",
+         "Bounded model checking of user-defined functions: a decision-chain function over arbitrary int arguments and thresholds against its reference; argument expressions that mention caller variables named like the parameters; 12 uses of the result (operators, conditions, arguments, let); higher-order and recursive use; 0-4 parameters; nil arguments.",
+         "Bounds: recursion depth <= 3 (concrete depth, symbolic data); fixed function bodies from the catalogue in DESIGN.md Appendix D."),
 }
 
 PENDING = "check not built yet in this session (build in progress, see DESIGN.md section 8)"
